@@ -1,5 +1,6 @@
 (* C14 — typed views select exactly the elements of their kind, in order, each once. *)
 From Anytype Require Import Base FloatBits Value Views.
+From Anytype Require Import HeapExtSpecs.
 From Anytype Require Import Heap HeapExt HeapExtProofs.
 From Coq Require Import Permutation.
 Local Open Scope Z_scope.
@@ -81,6 +82,35 @@ Theorem C14_heap_typed_views : forall (fadd fmul fdiv : Z -> Z -> Z) (of_int : Z
   xstep_core fadd fmul fdiv of_int s (XLAll k r) = (s, XRet (XO (OB (forallb (sel_kind k) l)))).
 Proof. exact xslicek_step. Qed.
 
+
+(* heap level, objects: the Map variants store the result of every selected field - and only of those - under the SAME key, the result
+   has pairwise distinct keys, and with the identity callback it holds the selected fields themselves and allocates nothing *)
+Theorem C14_heap_object_map_keys : forall sel f tagf kvs h h' res, NoDup (akeys kvs) -> omap_loop sel f tagf h kvs [] = (h', res) ->
+  forall k, match alookup k kvs with
+            | Some x => if sel x then exists v, alookup k res = Some v else alookup k res = None
+            | None => alookup k res = None
+            end.
+Proof. exact omap_loop_lookup. Qed.
+Theorem C14_heap_object_map_identity : forall sel tagf kvs h, NoDup (akeys kvs) ->
+  exists res, omap_loop sel MId tagf h kvs [] = (h, res) /\
+    forall k, alookup k res = match alookup k kvs with Some x => if sel x then Some x else None | None => None end.
+Proof. exact omap_loop_MId. Qed.
+Theorem C14_heap_object_map_distinct_keys : forall sel f tagf kvs h h' res, omap_loop sel f tagf h kvs [] = (h', res) -> NoDup (akeys res).
+Proof. exact omap_loop_nodup. Qed.
+(* heap level, lists: with a callback that returns a fresh pair [tag; x], Map builds one new two-element list per selected element, in
+   order, holding the tag the callback was given (the index for Map) and the element itself; ForEach sees every element once, in
+   order, with its index *)
+Theorem C14_heap_list_map_pairs : forall sel tagf l h i,
+  let '(h', res) := map_loop sel MPair tagf h l i [] in
+  length res = length (selected sel i l) /\
+  forall j p, nth_error (selected sel i l) j = Some p ->
+    nth_error res j = Some (HL (length h + j)) /\
+    nth_error h' (length h + j) = Some (CList [tagf (fst p) (snd p); snd p]).
+Proof. exact map_loop_MPair_content. Qed.
+Theorem C14_heap_foreach_log : forall l i,
+  map snd (index_log l i) = l /\ map fst (index_log l i) = map (fun k => (i + Z.of_nat k)%Z) (seq 0 (length l)).
+Proof. exact index_log_spec. Qed.
+
 Print Assumptions C14_slice.
 Print Assumptions C14_foreach_log.
 Print Assumptions C14_positions.
@@ -107,3 +137,8 @@ Print Assumptions C14_heap_filter.
 Print Assumptions C14_heap_map_identity.
 Print Assumptions C14_heap_map_once_each.
 Print Assumptions C14_heap_typed_views.
+Print Assumptions C14_heap_object_map_keys.
+Print Assumptions C14_heap_object_map_identity.
+Print Assumptions C14_heap_object_map_distinct_keys.
+Print Assumptions C14_heap_list_map_pairs.
+Print Assumptions C14_heap_foreach_log.
